@@ -9,6 +9,8 @@ CONSTANTS
   Pfx <- PfxT
   Bases = {}
   SegLen = 0
+  LongLen = 0
+  SigmaLong = {}
 INVARIANTS Recompose CleanParts PlainDid
 POSTCONDITION TraceAccepted
 CHECK_DEADLOCK FALSE
